@@ -73,12 +73,12 @@ Proof. destruct a as [[|b r]|]; cbn; intros H; inversion H; reflexivity. Qed.
 
 (* the requestheaders hook adds the credential only in the two situations it tests for *)
 Lemma requestheaders_carries cfg cred pm https in_set hs :
-  cfg.(c_auth) = Some cred -> clean cred hs ->
+  clean cred hs ->
   carries cred (requestheaders cfg pm https in_set hs) ->
   (is_upstream pm = true /\ https = false /\ (cfg.(c_fixed) && in_set) = false) \/ is_reverse pm = true.
 Proof.
-  intros Ha Hc [k Hk]. unfold requestheaders in Hk. rewrite Ha in Hk.
-  destruct (truthy (Some cred)) as [a|] eqn:Et.
+  intros Hc [k Hk]. unfold requestheaders in Hk.
+  destruct (truthy (c_auth cfg)) as [a|] eqn:Et.
   - destruct (is_upstream pm && negb https && negb (c_fixed cfg && in_set)) eqn:E1.
     + left. apply andb_true_iff in E1. destruct E1 as [E1 E3]. apply andb_true_iff in E1. destruct E1 as [E1 E2].
       apply negb_true_iff in E2, E3. auto.
@@ -144,6 +144,9 @@ Proof.
     apply transparent_layer_conns in E. destruct E as (E1 & E2 & E3 & E4).
     unfold inv, shape_ok. cbn. rewrite E1, E3. repeat split; try assumption; try discriminate.
 Qed.
+
+Lemma inv_dead st : inv st -> inv (dead st).
+Proof. intros H. exact H. Qed.
 
 (* ------------------------------------------------------------------ send_request *)
 Lemma send_request_state cfg st tls a hs ok st' wr :
@@ -230,15 +233,15 @@ Proof.
     destruct (sc_ord x =? ord); subst c; cbn; apply Hc; assumption.
 Qed.
 
-(* The per-event soundness lemma. The side condition says that this client is known to be tunnelled (repaired code),
+(* The per-event soundness lemma, for any value cred and whatever UpstreamAuth.auth is. The side condition says that this client is known to be tunnelled (repaired code),
    or is not in a tunnel, or the event is not the one the code as found mishandles. *)
 Lemma step_sound cfg cred in_set st ev st' wr conn w :
-  cfg.(c_auth) = Some cred -> inv st -> event_clean cred ev ->
+  inv st -> event_clean cred ev ->
   ((cfg.(c_fixed) && in_set) = true \/ st.(cs_tunnel) = false \/ leaky st ev = false) ->
   step cfg in_set st ev = (st', wr, conn) ->
   In w wr -> carries cred w.(w_fields) -> good w.
 Proof.
-  intros Ha Hi Hcl Hsafe H Hin Hcar. unfold step in H. destruct (negb (cs_alive st)).
+  intros Hi Hcl Hsafe H Hin Hcar. unfold step in H. destruct (negb (cs_alive st)).
   { inversion H; subst. destruct Hin. }
   assert (Hi' := Hi). destruct Hi' as (Hc & Hs & Hu).
   destruct ev as [tgt hh hs ok|a itls ok|ord].
@@ -254,7 +257,7 @@ Proof.
       * apply Hs. assumption.
     + (* the request head *)
       rewrite Hf in Hcar. cbn in Hcl.
-      destruct (requestheaders_carries _ _ _ _ _ _ Ha Hcl Hcar) as [(Hup & Htls & Hfs)|Hrev].
+      destruct (requestheaders_carries _ _ _ _ _ _ Hcl Hcar) as [(Hup & Htls & Hfs)|Hrev].
       * (* upstream mode, plain http *)
         assert (Hnt : cs_tunnel st = false).
         { destruct Hsafe as [Hsafe|[Hsafe|Hsafe]].
